@@ -7,6 +7,8 @@ import NimaVerif.Drv.Paths
 import NimaVerif.Drv.Value
 import NimaVerif.Drv.Cost
 import NimaVerif.Drv.Effects
+import NimaVerif.Drv.Scope
+import NimaVerif.Drv.Registry
 /-!
 Line-protocol driver: one request per line on stdin, one reply per line on stdout.
 Each topic has its own handler module `NimaVerif/Drv/<Topic>.lean` exporting
@@ -23,7 +25,9 @@ def handlers : List (SExp → Option SExp) := [
   Nima.Drv.Paths.handle,
   Nima.Drv.Value.handle,
   Nima.Drv.Cost.handle,
-  Nima.Drv.Effects.handle
+  Nima.Drv.Effects.handle,
+  Nima.Drv.Scope.handle,
+  Nima.Drv.Registry.handle
 ]
 
 def dispatch (req : SExp) : SExp :=
